@@ -242,6 +242,34 @@ def _h_system_roundtrip(n: int, m: int) -> bool:
             + ((str(n) + " ") if n != 1 else "") + "Y\n")
 
 
+LONG_R = ["Aaa%d" % i for i in range(12)]
+LONG_P = ["Bbb%d" % i for i in range(12)]
+
+
+def _h_long_roundtrip(n: int) -> bool:
+    """
+    pre: 1 <= n <= 1000
+    post: _
+    """
+    # LONG lines: 6+6 and 12+12 terms (printed text of 100-250 characters) and a key of 48 characters survive print -> parse
+    ok = True
+    for k in (6, 12):
+        reac = dict((key, n if i == 1 else 1 + i % 3) for i, key in enumerate(LONG_R[:k]))
+        prod = dict((key, n if i == 2 else 1 + i % 2) for i, key in enumerate(LONG_P[:k]))
+        r = Reaction(reac, prod, checks=())
+        back = Reaction.from_string(str(r), None, globals_=False, checks=())
+        ok = ok and _plain(back.reac) == reac and _plain(back.prod) == prod
+        keys = LONG_R[:k] + LONG_P[:k]
+        rs = ReactionSystem([r, Reaction({keys[0]: 1}, {keys[-1]: n}, checks=())], keys, substance_factory=Substance)
+        text = rs.string()
+        back2 = ReactionSystem.from_string(text, keys, substance_factory=Substance, rxn_parse_kwargs=dict(globals_=False, checks=()))
+        ok = ok and back2.rxns == rs.rxns and len(text.strip().split(chr(10))) == 2
+    lk = "A" * 48
+    r3 = Reaction({lk: n}, {"B" * 48: 1}, checks=())
+    ok = ok and Reaction.from_string(str(r3), None, globals_=False, checks=()) == r3
+    return ok
+
+
 from chempy.equilibria import EqSystem  # noqa
 
 
